@@ -99,6 +99,8 @@ def generic(mod, pid, args, seed, t0):
       problems.append((2, 'UNDECIDED property=%s obligation=%s reason=zero obligations generated' % (pid, f['contract'].label)))
     if f['exits'] == 0:
       problems.append((2, 'UNDECIDED property=%s obligation=%s reason=no path reaches an exit' % (pid, f['contract'].label)))
+  if getattr(T, 'axioms_contradictory', False):
+    problems.append((3, 'CHECKER-ERROR property=%s the spec axioms are contradictory (every proof would be vacuous)' % pid))
   vacuous = []
   for c, os_ in canaries:
     if not os_:
